@@ -661,33 +661,40 @@ where
         }
     };
 
-    let mut bytes = BytesMut::with_capacity(len as usize + 1);
-
-    bytes.put_u8(code);
-    bytes.put_i32(len);
-
-    bytes.resize(bytes.len() + len as usize - mem::size_of::<i32>(), b'0');
-
-    let slice_start = mem::size_of::<u8>() + mem::size_of::<i32>();
-    let slice_end = slice_start + len as usize - mem::size_of::<i32>();
-
-    // Avoids a panic
-    if slice_end < slice_start {
+    // The length counts itself.
+    if len < mem::size_of::<i32>() as i32 {
         return Err(Error::SocketError(format!(
             "Error reading message from socket - Code: {:?} - Length {:?}, Error: {:?}",
             code, len, "Unexpected length value for message"
         )));
     }
 
-    match stream.read_exact(&mut bytes[slice_start..slice_end]).await {
-        Ok(_) => (),
-        Err(err) => {
-            return Err(Error::SocketError(format!(
-                "Error reading message from socket - Code: {:?}, Error: {:?}",
-                code, err
-            )))
-        }
-    };
+    // Grow the buffer as the body arrives instead of reserving and filling the
+    // length the header claims: a few bytes must not make us allocate gigabytes.
+    const CHUNK: usize = 8196;
+    let mut remaining = len as usize - mem::size_of::<i32>();
+    let mut bytes = BytesMut::with_capacity(remaining.min(CHUNK) + 5);
+
+    bytes.put_u8(code);
+    bytes.put_i32(len);
+
+    while remaining > 0 {
+        let start = bytes.len();
+        let chunk = remaining.min(CHUNK);
+        bytes.resize(start + chunk, b'0');
+
+        match stream.read_exact(&mut bytes[start..]).await {
+            Ok(_) => (),
+            Err(err) => {
+                return Err(Error::SocketError(format!(
+                    "Error reading message from socket - Code: {:?}, Error: {:?}",
+                    code, err
+                )))
+            }
+        };
+
+        remaining -= chunk;
+    }
 
     Ok(bytes)
 }
